@@ -253,8 +253,15 @@ pub fn run_case(id: &'static str, case: &Case, or: Oracles, nontrivial: fn(&Sim)
         if case.cfg.auth == 1 && !(or.unauth) {
             sim.authorize(0);
         }
+        let debug = std::env::var("VH_DEBUG").is_ok();
         for st in &case.steps {
             sim.step(st);
+            if debug {
+                eprintln!("{st:?} -> tick {} flags {:?} fail {:?}", sim.tick(), sim.flags, sim.fail);
+                for (i, c) in sim.clients.iter().enumerate() {
+                    eprintln!("   client {i}: s2c {:?} c2s {:?}", c.s2c.iter().map(|q| q.len()).collect::<Vec<_>>(), c.c2s.iter().map(|q| q.len()).collect::<Vec<_>>());
+                }
+            }
             if sim.fail.is_some() {
                 break;
             }
